@@ -24,6 +24,8 @@
 #include <symengine/symbol.h>
 #include <symengine/derivative.h>
 #include <symengine/subs.h>
+#include <symengine/eval_double.h>
+#include <cmath>
 #include <symengine/ntheory_funcs.h>
 #include <symengine/polys/uratpoly.h>
 #include <symengine/polys/uintpoly.h>
@@ -428,6 +430,22 @@ inline RCP<const Basic> build(const Json &r, const Pool &pool, int depth = 0)
             // recipes serve): such a recipe counts as unbuildable
             if (op == "conjugate" && contains_zoo(*a1))
                 throw BuildError("conjugate of an expression containing zoo");
+            // exact evaluation of these at a large number costs time and
+            // memory proportional to its VALUE (gamma(14348907) is a
+            // factorial with a hundred million digits): unbuildable
+            if ((op == "gamma" || op == "loggamma" || op == "zeta" || op == "dirichlet_eta" || op == "digamma"
+                 || op == "trigamma" || op == "primepi" || op == "primorial" || op == "lambertw")
+                && is_a_Number(*a1) && !is_a<NaN>(*a1) && !is_a<Infty>(*a1)
+                && !down_cast<const Number &>(*a1).is_complex()) {
+                double mag = 0;
+                try {
+                    mag = std::fabs(eval_double(*a1));
+                } catch (const SymEngineException &) {
+                    mag = 1e300;
+                }
+                if (!(mag <= 2000.0))
+                    throw BuildError("special function of a large number");
+            }
             return it->second(a1);
         }
         auto &b = binary_table();
